@@ -370,6 +370,7 @@ func init() {
 			}
 			st := ex.Explore()
 			out.Executions, out.Transitions, out.MaxPoints, out.Exhaustive = st.Executions, st.Transitions, st.MaxPoints, st.Exhaustive
+			out.Extra["racy_selects"], out.Extra["racy_diverged"] = st.RacySelects, st.RacyDiverged
 			for k, v := range st.PerBound {
 				out.PerBound[fmt.Sprint(k)] = v
 			}
